@@ -285,7 +285,7 @@ def run(m: Model, r: Report, tier: str) -> None:
     g = CFG(rad.node)
     adv = [n for n in g.nodes.values() if n.kind == "stmt" and isinstance(n.ast, ast.Assign) and m.mtext(rad, n.ast) == "self.last_response = _L[0]"]
     nul = [n for n in g.nodes.values() if n.kind == "cond" and n.ast is not None and m.mtext(rad, n.ast) == "_L is not None"
-           and any("parse_dynamic(" in ast.unparse(b) for s_ in ast.walk(rad.node) if isinstance(s_, ast.If) and s_.test is n.ast for b in s_.body[:1])]
+           and any("parse_dynamic(" in ast.unparse(b) for s_ in ast.walk(rad.node) if isinstance(s_, ast.If) and s_.test is n.ast for b in s_.body)]
     dom = g.dominators()
     r.check(len(adv) == 1 and len(nul) == 1 and adv[0].id in dom[nul[0].id], "R4", f"{rad.qualname}#cursor-advances",
             "the replay cursor must advance for every matched row, also when the recorded reply is NULL; otherwise a repeated request keeps "
@@ -295,7 +295,17 @@ def run(m: Model, r: Report, tier: str) -> None:
     r.check(len(pdu_src) == 1, "R4", f"{rad.qualname}#reply-column", "the reply bytes must be taken from column 1 of the matched row (column 0 is the row id)", loc=rad.loc)
     src = ast.unparse(rad.node)
     r.check("self.state.reset()" in src and src.rstrip().endswith("return None"), "R4", f"{rad.qualname}#null-reply", "a NULL reply must reset the state and yield no response", loc=rad.loc)
-    r.check(m.has(rad, "service.UDSResponse.parse_dynamic(unhexlify(response_pdu))"), "R4", f"{rad.qualname}#client-parser", "recorded bytes must be parsed with the client's dynamic parser", loc=rad.loc)
+    pcalls = [n for n in ast.walk(rad.node) if isinstance(n, ast.Call) and ast.unparse(n.func) == "service.UDSResponse.parse_dynamic"]
+    r.check(len(pcalls) == 1 and "unhexlify(" in ast.unparse(rad.node), "R4", f"{rad.qualname}#client-parser", "recorded bytes must be parsed with the client's dynamic parser", loc=rad.loc)
+    # recorded bytes are whatever the ECU sent, including replies the client logged as malformed: the typed parser raises for those, so
+    # the replay needs the same raw fallback the client's parse_pdu has, otherwise the server raises and drops the connection
+    if len(pcalls) == 1:
+        tries_ = [t for t in ast.walk(rad.node) if isinstance(t, ast.Try) and any(pcalls[0] is x for b_ in t.body for x in ast.walk(b_))]
+        hs_ = [h for t in tries_ for h in t.handlers if h.type is None or ast.unparse(h.type) in ("Exception", "ValueError", "(ValueError, AssertionError)", "BaseException")]
+        raw_built = any(isinstance(x, ast.Call) and "Raw" in ast.unparse(x.func) and "Response" in ast.unparse(x.func) for h in hs_ for x in ast.walk(h))
+        r.check(bool(hs_) and raw_built, "R4", f"{rad.qualname}#malformed-recording",
+                "UDSResponse.parse_dynamic raises for a recorded reply that is malformed (too short / too long / unknown NRC, as logged together with a MalformedResponse); "
+                "the replaying server then raises instead of answering with the recorded bytes and the connection is dropped: the parse needs a raw-response fallback", loc=rad.loc)
     r.check(any(isinstance(n, ast.Assign) and ast.unparse(n) == "self.last_response = -1" for n in ast.walk(dbs.methods["__init__"].node)), "R4",
             f"{dbs.qualname}#cursor-start", "the cursor must start before the first row", loc=dbs.loc)
 
